@@ -690,6 +690,8 @@ def oracle_pipeline(rng, n, stats):
             ls, rs = lval[p[0]], rval[p[1]]
             if which == 'edit_distance':
                 share = len(set(ts.tokens(ls, False)) & set(ts.tokens(rs, False))) > 0
+                case = k8_case({k: x for k, x in case.items() if k not in ('pair_strings', 'true_levenshtein', 'py_stringmatching_levenshtein')},
+                               which, {p[0]: ls}, {p[1]: rs}, [p])
                 if p in jp and p not in pp:
                     v.append(viol('C07', 'edit-distance join result not contained in the pipeline result', case, None, list(p)))
                 if share and (p in jp) != (p in pp):
@@ -761,6 +763,17 @@ def straddling_only(which, ts, L, R, lk, rk, la, ra, t, kw, a, b):
     return True, diff
 
 
+def k8_schedule_case(case, which, L, R, lk, rk, la, ra, kw, a, b):
+    """edit-distance join: two results differ in a pair on which the dependency's Levenshtein is wrong (K8)"""
+    if which != 'edit_distance':
+        return case
+    lcol, rcol = kw.get('l_out_prefix', 'l_') + lk, kw.get('r_out_prefix', 'r_') + rk
+    diff = set(out_pairs(a, lcol, rcol)) ^ set(out_pairs(b, lcol, rcol))
+    lval = {keyv(k): x for k, x in zip(L[lk], L[la])}
+    rval = {keyv(k): x for k, x in zip(R[rk], R[ra])}
+    return k8_case(case, which, lval, rval, diff)
+
+
 def straddling_corpus_case():
     """a fixed input on which the jaccard join at 0.6667 returns (1, 10) with n_jobs = 1 and nothing with n_jobs = 2
     (raw 2/3 < 0.6667 <= round(2/3, 4)): known finding K5"""
@@ -794,7 +807,8 @@ def oracle_schedule(rng, n, stats):
             if rows_multiset(o) != ref:
                 so, diff = straddling_only(which, ts, L, R, lk, rk, la, ra, t, kw, base, o)
                 v.append(viol('C10', '%s_join result depends on n_jobs (%d vs 1)%s' % (which, nj, ' — only in straddling pairs' if so else ''),
-                              dict(case, n_jobs=nj, straddling_only=so, differing_pairs=[list(map(str, d)) for d in diff[:5]]), len(ref), len(o)))
+                              dict(k8_schedule_case(case, which, L, R, lk, rk, la, ra, kw, base, o), n_jobs=nj, straddling_only=so,
+                                   differing_pairs=[list(map(str, d)) for d in diff[:5]]), len(ref), len(o)))
             if list(o['_id']) != list(range(len(o))):
                 v.append(viol('C10', '_id is not 0..n-1 with n_jobs=%d' % nj, dict(case, n_jobs=nj)))
         # permutation of rows, index relabelling, unrelated columns, repetition
@@ -907,8 +921,7 @@ def oracle_history(rng, n, stats):
                         v.append(viol('C12', 'apply_matcher modified the candidate set', {'entry': 'history', 'history': history + ['matcher']}))
                     desc = ('matcher',)
                 else:
-                    if len(L):
-                        ssj.profile_table_for_join(L)
+                    ssj.profile_table_for_join(L)        # tables of any shape, also without rows (repair F14)
                     ssj.dataframe_column_to_str(L, la, inplace=False)
                     desc = ('profile+convert',)
             except Exception as e:   # noqa: BLE001
@@ -928,6 +941,20 @@ def oracle_history(rng, n, stats):
 
 
 # ------------------------------------------------------------------ C13 metamorphic laws
+def k8_case(case, which, lval, rval, offending):
+    """for the edit-distance join: if one of the offending pairs is a pair on which the dependency's Levenshtein differs from
+    the true distance (known finding K8), say so in the case"""
+    if which != 'edit_distance':
+        return case
+    for x in offending:
+        ls, rs = lval.get(x[0]), rval.get(x[1])
+        if isinstance(ls, str) and isinstance(rs, str):
+            d, dr = LEV(ls, rs), LEV_REAL(ls, rs)
+            if d != dr:
+                return dict(case, pair_strings=[ls, rs], true_levenshtein=d, py_stringmatching_levenshtein=int(dr))
+    return case
+
+
 def check_laws(which, ts, L, R, lk, rk, la, ra, t, kw, rng):
     """the three C13 laws on one pair of tables (oracle-free); returns violations"""
     v = []
@@ -943,7 +970,8 @@ def check_laws(which, ts, L, R, lk, rk, la, ra, t, kw, rng):
         a = sorted((str(p[0]), str(p[1]), float(s)) for p, s in zip(out_pairs(A, 'l_' + lk, 'r_' + rk), A['_sim_score']))
         b = sorted((str(p[1]), str(p[0]), float(s)) for p, s in zip(out_pairs(B, 'l_' + rk, 'r_' + lk), B['_sim_score']))
         if a != b:
-            v.append(viol('C13', '%s_join: swapping the tables changes the result' % which, case, len(a), len(b)))
+            lval0, rval0 = dict(zip(map(str, L[lk]), L[la])), dict(zip(map(str, R[rk]), R[ra]))
+            v.append(viol('C13', '%s_join: swapping the tables changes the result' % which, k8_case(case, which, lval0, rval0, set(a) ^ set(b)), len(a), len(b)))
         # operator partition
         ge, gt, eq = ('<=', '<', '=') if ed else ('>=', '>', '=')
         res = {}
@@ -965,7 +993,8 @@ def check_laws(which, ts, L, R, lk, rk, la, ra, t, kw, rng):
         g = sorted(x for x in res[ge] if not excluded(x, [t], [ge, gt, eq]))
         inter = set(x[:2] for x in res[gt] if not excluded(x, [t], [ge, gt, eq])) & set(x[:2] for x in res[eq] if not excluded(x, [t], [ge, gt, eq]))
         if u != g or inter:
-            v.append(viol('C13', "%s_join: '%s' is not the disjoint union of '%s' and '%s'" % (which, ge, gt, eq), case, len(g), len(u)))
+            v.append(viol('C13', "%s_join: '%s' is not the disjoint union of '%s' and '%s'" % (which, ge, gt, eq),
+                          k8_case(case, which, lval, rval, set(u) ^ set(g)), len(g), len(u)))
         # threshold refinement: the result at `t` against the result at a laxer threshold restricted to scores meeting `t`,
         # and the result at a stricter threshold against the restriction of the result at `t`
         if ed:
@@ -985,7 +1014,8 @@ def check_laws(which, ts, L, R, lk, rk, la, ra, t, kw, rng):
             s2 = sorted(x for x in y1 if meets(x[2], t2) and not excluded(x, [t1, t2], [ge]))
             y2 = sorted(x for x in y2 if not excluded(x, [t1, t2], [ge]))
             if y2 != s2:
-                v.append(viol('C13', '%s_join: result at the stricter threshold %r is not the restriction of the result at %r' % (which, t2, t1), case, len(s2), len(y2)))
+                v.append(viol('C13', '%s_join: result at the stricter threshold %r is not the restriction of the result at %r' % (which, t2, t1),
+                              k8_case(case, which, lval, rval, set(y2) ^ set(s2)), len(s2), len(y2)))
     except Exception as e:   # noqa: BLE001
         v.append(viol('C15', 'valid join call raised %s: %s' % (type(e).__name__, str(e)[:80]), case))
     return v
@@ -1204,6 +1234,8 @@ def oracle_profiler(rng, n, stats, big_every=20):
     v = []
     for k in range(n):
         df = S.gen_profile_frame(rng, stats, big=(k % big_every == big_every - 1))
+        if rng.random() < 0.05:
+            df = df.iloc[0:0]            # a table without rows is a valid argument (C15): 0 values, 0.0 %
         attrs = None if rng.random() < 0.5 else rng.sample(list(df.columns), rng.randint(0 if rng.random() < 0.15 else 1, len(df.columns)))
         use = list(df.columns) if attrs is None else attrs
         case = {'entry': 'profiler', 'frame': frame_to_case(df) if len(df) < 100 else {'rows': len(df), 'seed_case': k}, 'attrs': attrs}
@@ -1222,7 +1254,7 @@ def oracle_profiler(rng, n, stats, big_every=20):
             distinct = len(set(x for x in col if not is_missing(x))) + (1 if miss else 0)
 
             def fmt(c):
-                return '%d (%s%%)' % (c, str(round(float(c) / float(nrows) * 100, 2)))
+                return '%d (%s%%)' % (c, str(round(float(c) / float(nrows) * 100, 2)) if nrows else '0.0')
             if out.loc[a, 'Unique values'] != fmt(distinct):
                 v.append(viol('C17', "'Unique values' is not the exact distinct count", dict(case, attr=a), fmt(distinct), out.loc[a, 'Unique values']))
             if out.loc[a, 'Missing values'] != fmt(miss):
